@@ -55,7 +55,7 @@ ASIS_INVS = "INVARIANTS TypeOK InvCleanFailure InvNoTruncated\nPROPERTIES Termin
 #   cursor:  the resume cursor (last event id) survives from one response body to the next
 #   5xx:     a transient HTTP status answering a reconnect GET is retried within the budget
 # VERIF_C09_REPAIRED="scanner,cursor,5xx" (any subset, or "none") overrides the table for one run.
-REPAIRED = {"scanner": False, "cursor": False, "5xx": False}
+REPAIRED = {"scanner": False, "cursor": True, "5xx": True}
 if os.environ.get("VERIF_C09_REPAIRED") is not None:
     _on = {x.strip() for x in os.environ["VERIF_C09_REPAIRED"].split(",") if x.strip() and x.strip() != "none"}
     if _on - set(REPAIRED):
